@@ -7,6 +7,7 @@ import (
 	"time"
 
 	"github.com/256dpi/lungo"
+	"github.com/256dpi/lungo/bsonkit"
 	"github.com/256dpi/lungo/verifsim/simrt"
 
 	"verif/harness/model"
@@ -109,6 +110,12 @@ func execSeq(t *testing.T, plan *Plan, h seqHooks) *Outcome {
 					before := e.engine.Catalog()
 					e.engine.Close()
 					e.freshProcess()
+					if op.N == 1 {
+						// the new process has already drawn timestamps in this second (another engine, a call of
+						// bsonkit.Now) before it opens the file: ids must still continue after the persisted ones
+						bsonkit.Now()
+						e.probe("restart-warm-generator")
+					}
 					if err := e.open(); err != nil {
 						e.violate(violation(h.prop, "reopen-failed", "", fmt.Sprintf("reopening the database failed: %v", err)))
 						return
